@@ -15,6 +15,7 @@ usage: tools/evalseed.py <worktree> <property id> <seed id>
 import json, os, re, shutil, subprocess, sys, time
 
 wt, pid, sid = sys.argv[1], sys.argv[2], sys.argv[3]
+NOAPPLY = "--no-apply" in sys.argv   # store + confirm only; evaluate with tools/reevalseeds.py
 V = "/verif"
 out = os.path.join(V, "seeded", sid)
 so = os.path.join(wt, "seed_out")
@@ -73,6 +74,14 @@ for f in ("demo.cc", "run_demo.sh", "notes.md", "gen.cc"):
     if os.path.exists(p):
         shutil.copy(p, os.path.join(out, f))
 # -- 3. run the checks against the change ---------------------------------------------
+if NOAPPLY:
+    nt = os.path.join(so, "notes.md")
+    if os.path.exists(nt):
+        ls = [l.strip() for l in open(nt).read().splitlines() if l.strip() and not l.startswith("#")]
+        meta["summary"] = ls[0][:400] if ls else ""
+    json.dump(meta, open(os.path.join(out, "meta.json"), "w"), indent=1)
+    print(json.dumps(meta["confirmed"], indent=1)[:1200])
+    sys.exit(0)
 rc, o = sh("git -C /repo status --porcelain -- src | head -3")
 if o.strip():
     print("refusing: /repo/src has local modifications"); sys.exit(2)
